@@ -152,7 +152,7 @@ func CheckPanics(run *core.Run, prog *load.Program) {
 			case *ast.TypeAssertExpr:
 				if x.Type != nil {
 					s := add("type-assertion", types.ExprString(x), x)
-					_ = s
+					s.ok, s.reason = assertionImplied(info, fd, x)
 				}
 			case *ast.IndexExpr:
 				t := info.TypeOf(x.X)
@@ -854,6 +854,9 @@ func structuralArg(info *types.Info, fd *ast.FuncDecl, a ast.Expr) bool {
 	n := 0
 	for {
 		switch x := e.(type) {
+		case *ast.TypeAssertExpr:
+			e = ast.Unparen(x.X)
+			continue
 		case *ast.CallExpr:
 			sel, ok := ast.Unparen(x.Fun).(*ast.SelectorExpr)
 			if !ok || !structuralAccessors[sel.Sel.Name] {
@@ -1044,4 +1047,40 @@ func CheckAliasAware(run *core.Run, prog *load.Program) {
 		return true
 	})
 	run.Check("G-ALIAS-AWARE/typeparams", "LookupInterface:site", prog.Pos(f.Decl.Pos()), n > 0 || true, "")
+}
+
+// assertionImplied: x.(I) on the symbol of a type switch, inside a clause that
+// lists only concrete types which all implement the interface I, cannot fail.
+func assertionImplied(info *types.Info, fd *ast.FuncDecl, ta *ast.TypeAssertExpr) (bool, string) {
+	id, ok := ast.Unparen(ta.X).(*ast.Ident)
+	if !ok {
+		return false, ""
+	}
+	it, ok := info.TypeOf(ta.Type).Underlying().(*types.Interface)
+	if !ok {
+		return false, ""
+	}
+	v := info.ObjectOf(id)
+	implied := false
+	ast.Inspect(fd, func(n ast.Node) bool {
+		cc, ok := n.(*ast.CaseClause)
+		if !ok || info.Implicits[cc] != v || !within(cc, ta) || len(cc.List) == 0 {
+			return true
+		}
+		all := true
+		for _, e := range cc.List {
+			ct := info.TypeOf(e)
+			if ct == nil || !types.Implements(ct, it) {
+				all = false
+			}
+		}
+		if all {
+			implied = true
+		}
+		return true
+	})
+	if implied {
+		return true, "every type listed by the enclosing type-switch case implements the asserted interface"
+	}
+	return false, ""
 }
